@@ -149,6 +149,9 @@ def instances(rng):
         datetime.datetime(2020, 1, 2, 0, 0, 0, 6), datetime.datetime(2020, 1, 2, 3, 4, 5, 6), datetime.datetime(2020, 12, 31, 23, 59, 59, 999999),
         datetime.datetime(2020, 1, 2, 3, tzinfo=datetime.timezone.utc), datetime.datetime(2020, 1, 2, tzinfo=tz2), datetime.datetime(2020, 1, 2, 3, 4, fold=1),
         datetime.datetime(1, 1, 1), datetime.datetime(9999, 12, 31, 0, 0, 0, 1),
+        # fold=1 where every time field is zero (the date-only shortcut must not swallow it), alone and with a zone
+        datetime.datetime(2020, 11, 1, fold=1), datetime.datetime(2020, 11, 1, 0, 0, 0, 0, fold=1, tzinfo=tz2), datetime.time(0, fold=1),
+        datetime.datetime(2020, 11, 1, 0, 0, 0, 1, fold=1), datetime.datetime(2020, 11, 1, 1, fold=1),
         datetime.time(), datetime.time(1), datetime.time(0, 2), datetime.time(0, 0, 3), datetime.time(0, 0, 0, 4), datetime.time(1, 2, 3, 4, tzinfo=tz2), datetime.time(5, fold=1),
         datetime.date(2020, 2, 29), datetime.date.min, datetime.date.max,
         datetime.timezone.utc, tz2, datetime.timezone(td(hours=-5, minutes=-30), 'NAME'), datetime.timezone(td(seconds=1)),
